@@ -19,6 +19,7 @@ type HarnessCfg struct {
 	MaxPaths  int               `json:"max_paths"`
 	MaxConc   int               `json:"max_conc"`
 	TimeoutMs int               `json:"timeout_ms"`
+	FallbackS int               `json:"fallback_s"`
 	Params    map[string]int    `json:"params"`
 	Redirect  map[string]string `json:"redirect"`
 	SkipGo    []string          `json:"skip_go"`
@@ -66,6 +67,7 @@ type HarnessResult struct {
 	Unsat       int               `json:"unsat"`
 	SolverUnk   int               `json:"solver_unknown"`
 	SolverErr   int               `json:"solver_errors"`
+	Fallbacks   int               `json:"fallback_queries"`
 	SolverS     float64           `json:"solver_s"`
 	MaxQueryS   float64           `json:"max_query_s"`
 	WallS       float64           `json:"wall_s"`
@@ -183,7 +185,7 @@ func runHarness(prog *ssa.Program, fn *ssa.Function, cfg HarnessCfg, workers int
 		cfg.MaxConc = 64
 	}
 	if cfg.TimeoutMs == 0 {
-		cfg.TimeoutMs = 60_000
+		cfg.TimeoutMs = 600
 	}
 	h := &HarnessRun{cfg: cfg, fn: fn, prog: prog, redirect: map[string]*ssa.Function{}}
 	h.cond = sync.NewCond(&h.mu)
@@ -216,8 +218,10 @@ func runHarness(prog *ssa.Program, fn *ssa.Function, cfg HarnessCfg, workers int
 				fmt.Fprintln(os.Stderr, "solver start failed:", err)
 				return
 			}
+			sv.fbTimeoutS = cfg.FallbackS
 			defer func() {
 				h.mu.Lock()
+				h.res.Fallbacks += sv.Fallbacks
 				h.res.Queries += sv.Queries
 				h.res.Sat += sv.Sat
 				h.res.Unsat += sv.Unsat
